@@ -11,6 +11,7 @@ var libUsed = map[string]string{}
 
 // library functions that write nothing reachable from the verified code
 var libPure = map[string]bool{
+	"(*sync.Pool).Put": true,
 	"fmt.Errorf": true, "fmt.Sprintf": true, "fmt.Sprint": true, "fmt.Sprintln": true, "errors.New": true,
 	"github.com/tdewolff/parse/v2/strconv.ParseFloat": true, "github.com/tdewolff/parse/v2/strconv.ParseInt": true,
 	"github.com/tdewolff/parse/v2/strconv.ParseUint": true,
@@ -29,6 +30,16 @@ func (x *Exec) callLibrary(s *State, fn *types.Func, recv *Term, args []*Term, c
 			s.assume(And(Cmp("<=", IntLit(0), v[1]), Cmp("<=", v[1], Field(args[0], 2))))
 		}
 		return v, true
+	case "(*sync.Pool).Get":
+		// a recycled or new object: a reference that no live structure points to (no use after Put: assumed),
+		// whose fields hold arbitrary values
+		libUsed[full] = "returns an object that is not referenced by any live structure; its fields hold arbitrary (recycled) values; the dynamic type is the one asserted at the call site"
+		ref := x.allocRef(s)
+		x.poolRefs = append(x.poolRefs, ref)
+		return []*Term{Mk(IfaceSort, x.freshVar("pooltag", SInt), ref)}, true
+	case "(*sync.Pool).Put":
+		libUsed[full] = "no effect on the verified state"
+		return nil, true
 	case "fmt.Errorf", "errors.New":
 		libUsed[full] = "returns a non-nil error"
 		e := x.freshVar("err", IfaceSort)
